@@ -1,7 +1,7 @@
 SPECIFICATION MCSpec
 CONSTANTS Accts = {"a1", "a2"}
           MaxN = 2
-          NFees = 3
+          NFees = 2
           MaxBlocks = 1
           MaxInc = 1
           NBal = 1
